@@ -50,6 +50,8 @@ func (c *Conversation) receiveUnit(m ValidMessage, forgetFragments bool) (plain 
 }
 
 func (c *Conversation) receiveWithoutOTR(message ValidMessage) (MessagePlaintext, []ValidMessage, error) {
+	// the caller wipes its working copy when it returns: hand out a copy of our own
+	message = makeCopy(message)
 	return MessagePlaintext(message), nil, nil
 }
 
